@@ -767,3 +767,8 @@ pub broadcast axiom fn def_range_set_reads_elim<'s>(i: &'s str, o: Range)
 RPARSE_CONTRACT = """        ensures
             (r is Ok ==> range_set_reads(text, r->Ok_0)),  // @Range::parse#what-range_set-reads
             (r is Err ==> range_set_rej(text)),  // @Range::parse#fails-only-without-an-alternative"""
+
+_STRS = ['*', '<=', '<', '>=', '>', ' <=', ' <', '||', '']
+BS_FMT_HINT = 'proof { ' + ' '.join('reveal_strlit("%s");' % x for x in _STRS) + ' assert(""@ =~= Seq::<char>::empty()); }'
+RANGE_FMT_HINT = 'broadcast use ax_vec_len_fits;\n        let ghost out0 = fmt_out(*f);\n        proof { reveal_strlit("||"); reveal_strlit(""); assert(""@ =~= Seq::<char>::empty()); }'
+RANGE_FMT_LOOPS = ["$I == $IT.index@, self.0@.len() <= usize::MAX, rwf(*self), fmt_out(*f) == out0 + alts_text(self.0@, $I as int), \"\"@ == Seq::<char>::empty(),"]
